@@ -1038,6 +1038,8 @@ def _op_between(P, add, cat, left, right, op):
 def variants(text, block):
     v = [('base', text, 0, 0)]
     v.append(('lead-comment', '# c é\n' + text, 1, 0))
+    v.append(('lead-code-comment', '# 2) second, (é\n' + text, 1, 0))
+    v.append(('trail-code-comment', text + '  # x), y\n# ] "', 0, 0))
     v.append(('trail-comment', text + '  # c é', 0, 0))
     v.append(('trail-comment-line', text + '\n# ü', 0, 0))
     v.append(('trail-newline', text + '\n', 0, 0))
@@ -1105,6 +1107,11 @@ def _last_len(t):
     return len(l), len(l.encode())
 
 
+# comment texts with code-like content: separators, delimiters, quotes, backslashes, hashes
+CODE_COMMENTS = ['# 2) second, optional', '# x, y', '# ]', '# "', "# '", '# \\', '# a) # b, (c', '# ),(', '# [,', '# é, (ü', '# }:', '#,', '# (',
+                 '# """', '# f(x, y):', '# c é']
+
+
 def _sep(rng, text, sep=',', trailing=False):
     """a separator layout to append to `text`"""
     ch, by = _last_len(text)
@@ -1118,8 +1125,12 @@ def _sep(rng, text, sep=',', trailing=False):
     if c < 0.75:
         return '\n' + ' ' * rng.choice(pads) + sep + tail            # separator on its own following line
     if c < 0.85:
-        return '  # c é\n' + ' ' * rng.choice(pads) + sep + tail
-    if c < 0.93:
+        return '  ' + rng.choice(CODE_COMMENTS) + '\n' + ' ' * rng.choice(pads) + sep + tail
+    if c < 0.90:
+        # whole comment line(s) with code-like content between the element and its separator
+        return '\n' + ''.join(' ' * rng.randint(0, 4) + rng.choice(CODE_COMMENTS) + '\n' for _ in range(rng.randint(1, 2))) \
+            + ' ' * rng.choice(pads) + sep + tail
+    if c < 0.95:
         return '\n\n' + ' ' * rng.choice(pads) + sep + (tail if not trailing else rng.choice(['', '\n', '  # é']))
     return sep + '\n' + ' ' * rng.randint(0, 6) if not trailing else sep + rng.choice(['\n', '  # é', ' '])
 
